@@ -443,7 +443,8 @@ def case_annotate(cls, params, rec):
 		st_ = r.randint(0, L - ln)
 		rows.append((r.randrange(3), st_, st_ + ln))
 	r.shuffle(rows)
-	seqlets = pandas.DataFrame(rows, columns=["example_idx", "start", "end"])
+	seqlets = gen.reindex(pandas.DataFrame(rows, columns=["example_idx",
+		"start", "end"]), "C13", params["cseed"])
 	motifs = {"m%d" % i: torch.from_numpy(make_pwm(nr, r, r.randint(2, 20),
 		"fine")) for i in range(params["n_t"])}
 	n = params["n_nearest"]
